@@ -245,7 +245,7 @@ func (s *Sorts) ZeroOfSort(so string) string {
 	}
 	if strings.HasPrefix(so, "(Array ") {
 		_, rng := splitArraySort(so)
-		return "((as const " + so + ") " + s.ZeroOfSort(rng) + ")"
+		return "((as const " + so + ") " + s.finalZero(rng) + ")"
 	}
 	panic("zero of sort " + so)
 }
